@@ -22,6 +22,7 @@ import (
 	"go/ast"
 	"go/token"
 	"go/types"
+	"golang.org/x/tools/go/packages"
 	"sort"
 	"strings"
 )
@@ -814,4 +815,187 @@ func ruleCC4(c *Ctx) {
 		})
 	}
 	c.check(ok, rule, "ast.LexerTermCharClass.NFACons/edge-per-range", p.Pos(fd.Pos()), "every range of the class expression becomes one edge labelled with that range", why)
+}
+
+// ---- CC-5: every bound of a range that reaches the automaton is a decoded code point ----
+//
+// The runtime compares the input rune with table words converted back to rune, and the driver feeds
+// -1 as the end-of-input marker. A class or literal bound is safe only if it is a valid code point
+// (0..U+10FFFF): the result of UTF-8 decoding (utf8.DecodeRune*, range over a string), or a constant
+// in that interval. A bound taken straight from a numeric conversion (hexToRune of 8 hex digits can
+// be any 32-bit value, \UFFFFFFFF is rune -1) puts -1 into a range: PushRune(-1) then answers
+// "consume" and the lexer never reaches EOF; above U+10FFFF it denotes no code point at all.
+func ruleCC5(c *Ctx, rule string) {
+	p := c.Prog
+	n := 0
+	// classify an expression that yields a rune: "" if it is a decoded code point, else why not
+	var classify func(pk *packages.Package, fn ast.Node, e ast.Expr, depth int) string
+	classify = func(pk *packages.Package, fn ast.Node, e ast.Expr, depth int) string {
+		info := pk.TypesInfo
+		if depth > 4 {
+			return "cannot trace `" + exprString(e) + "`"
+		}
+		e = ast.Unparen(e)
+		if tv, ok := info.Types[e]; ok && tv.Value != nil {
+			if v, ok := constInt(info, e); ok && v >= 0 && v <= 0x10FFFF {
+				return ""
+			}
+			return "constant " + exprString(e) + " outside 0..U+10FFFF"
+		}
+		switch x := e.(type) {
+		case *ast.Ident:
+			o := usesObj(info, x)
+			if o == nil {
+				return "cannot resolve " + x.Name
+			}
+			// every definition of the variable
+			var why string
+			found := false
+			ast.Inspect(fn, func(m ast.Node) bool {
+				switch y := m.(type) {
+				case *ast.AssignStmt:
+					for i, l := range y.Lhs {
+						if usesObj(info, l) != o {
+							continue
+						}
+						found = true
+						if len(y.Rhs) == 1 && len(y.Lhs) >= 1 {
+							if call, ok := ast.Unparen(y.Rhs[0]).(*ast.CallExpr); ok && len(y.Lhs) > 1 {
+								full := fullName(calleeFunc(info, call))
+								if i == 0 && strings.HasPrefix(full, "unicode/utf8.Decode") {
+									continue
+								}
+								why = "`" + x.Name + "` is a result of " + full
+								continue
+							}
+						}
+						if i < len(y.Rhs) {
+							if w := classify(pk, fn, y.Rhs[i], depth+1); w != "" {
+								why = w
+							}
+						}
+					}
+				case *ast.RangeStmt:
+					if y.Value != nil && usesObj(info, y.Value) == o {
+						found = true
+						if b, ok := info.TypeOf(y.X).Underlying().(*types.Basic); !ok || b.Info()&types.IsString == 0 {
+							if _, isRunes := info.TypeOf(y.X).Underlying().(*types.Slice); !isRunes {
+								why = "`" + x.Name + "` ranges over " + exprString(y.X) + ", which is not a string"
+							} else if w := classify(pk, fn, y.X, depth+1); w != "" {
+								why = w
+							}
+						}
+					}
+				}
+				return true
+			})
+			if !found {
+				// a parameter: not traceable here
+				return "`" + x.Name + "` is not defined from a decoding in this function"
+			}
+			return why
+		case *ast.CallExpr:
+			if tv, ok := info.Types[x.Fun]; ok && tv.IsType() && len(x.Args) == 1 {
+				// conversion: []rune(string) and rune(<decoded>) keep the property
+				if b, ok := info.TypeOf(x.Args[0]).Underlying().(*types.Basic); ok && b.Info()&types.IsString != 0 {
+					return ""
+				}
+				return classify(pk, fn, x.Args[0], depth+1)
+			}
+			// a local closure or package function returning the rune
+			var body ast.Node
+			if id, ok := ast.Unparen(x.Fun).(*ast.Ident); ok {
+				if o := usesObj(info, id); o != nil {
+					if d := localDefs(info, fn)[o]; d != nil {
+						if fl, ok := ast.Unparen(d).(*ast.FuncLit); ok {
+							body = fl
+						}
+					}
+				}
+			}
+			if body == nil {
+				if cf := calleeFunc(info, x); cf != nil && cf.Pkg() == pk.Types {
+					if hd := p.funcDecls[cf.Origin()]; hd != nil && hd.Body != nil {
+						body = hd
+					}
+				}
+			}
+			if body == nil {
+				return "`" + truncate(exprString(x), 50) + "` is not a UTF-8 decoding"
+			}
+			why := ""
+			nRet := 0
+			var walk func(m ast.Node) bool
+			walk = func(m ast.Node) bool {
+				if fl, ok := m.(*ast.FuncLit); ok && ast.Node(fl) != body {
+					return false
+				}
+				if rs, ok := m.(*ast.ReturnStmt); ok && len(rs.Results) >= 1 {
+					nRet++
+					if w := classify(pk, body, rs.Results[0], depth+1); w != "" {
+						why = w
+					}
+				}
+				return true
+			}
+			ast.Inspect(body, walk)
+			if nRet == 0 {
+				return "helper returns nothing traceable"
+			}
+			return why
+		case *ast.IndexExpr:
+			return classify(pk, fn, x.X, depth+1) // element of []rune(string)
+		}
+		return "`" + truncate(exprString(e), 50) + "` is not a UTF-8 decoding"
+	}
+	// (a) class items built by the front end
+	if pk, fd := p.FuncDecl("internal/parser", "parser.on_char_class"); fd != nil {
+		info := pk.TypesInfo
+		ast.Inspect(fd.Body, func(m ast.Node) bool {
+			cl, ok := m.(*ast.CompositeLit)
+			if !ok || !typeIs(info.TypeOf(cl), "internal/ast", "CharClassItem") {
+				return true
+			}
+			for _, fld := range []string{"From", "To"} {
+				v := kvOf(cl, fld)
+				if v == nil {
+					continue
+				}
+				n++
+				why := classify(pk, fd, v, 0)
+				c.check(why == "", rule, "parser.on_char_class/bound("+fld+")", p.Pos(v.Pos()),
+					"the bound is the result of UTF-8 decoding: a code point in 0..U+10FFFF",
+					"a class bound is not a decoded code point ("+why+"): it can be -1 (\\UFFFFFFFF), which is the end-of-input marker the lexer must never consume, or lie above U+10FFFF")
+			}
+			return true
+		})
+	} else {
+		c.unres(rule, "parser.on_char_class", "", "function not found")
+	}
+	// (b) literals
+	if pk, fd := p.FuncDecl("internal/ast", "LexerTermLiteral.NFACons"); fd != nil {
+		info := pk.TypesInfo
+		ast.Inspect(fd.Body, func(m ast.Node) bool {
+			cl, ok := m.(*ast.CompositeLit)
+			if !ok || !typeIs(info.TypeOf(cl), "lexergen/rang3", "Range") {
+				return true
+			}
+			for _, fld := range []string{"B", "E"} {
+				v := kvOf(cl, fld)
+				if v == nil {
+					continue
+				}
+				n++
+				why := classify(pk, fd, v, 0)
+				c.check(why == "", rule, "ast.LexerTermLiteral.NFACons/bound("+fld+")", p.Pos(v.Pos()),
+					"the edge label is a decoded code point of the literal", "a literal's edge label is not a decoded code point ("+why+")")
+			}
+			return true
+		})
+	} else {
+		c.unres(rule, "ast.LexerTermLiteral.NFACons", "", "function not found")
+	}
+	if n < 4 {
+		c.unres(rule, "range-bounds", "", "only %d range bounds built from grammar text were found (4 expected: class From/To, literal B/E)", n)
+	}
 }
